@@ -26,6 +26,7 @@ class BuiltinMixin:
                 id(super): self.b_super, id(hasattr): self.b_hasattr, id(iter): self.b_iter,
                 id(sorted): self.b_sorted, id(id): self.b_id, id(next): self.b_next,
                 id(filter): self.b_filter, id(setattr): self.b_setattr,
+                id(__import__("typing").cast): (lambda st, args, kwargs, node: [(st, args[1])]),
             }
             h = getattr(self, "extra_builtin_models", None)
             if h:
